@@ -104,7 +104,25 @@ def c10(tier):
         "allocator failure is not injected (not in the statement)"]
     return c
 
-CHECKS = {"C01": c01, "C02": c02, "C03": c03, "C04": c04, "C08": c08, "C10": c10}
+def c12(tier):
+    c = _topo("C12", 12, tier, 50, 1500)
+    c.rule = ("one evaluation = one history in which hwloc_topology_dup is taken at arbitrary points (also of dups and XML-restarted replicas), "
+              "followed by ops on either copy, ops applied to both in lock-step, and destroy in seeded order; oracles: dump and XML export equal at "
+              "dup time, the untouched copy never moves, lock-step keeps them equal, ASan/LSan at destroy; distinct_nontrivial = distinct "
+              "(canonical dump after an op, op kind) pairs")
+    return c
+
+
+def c05(tier):
+    c = _topo("C05", 5, tier, 70, 1800)
+    c.rule = ("one evaluation = one history with xml_restart (export via file or buffer, v3 or v2 format, reload with the same flags and all types "
+              "kept) at arbitrary points; the four nolibxml/libxml export x import pairings are process classes; oracles: projected dump equal, "
+              "userdata records delivered exactly as exported, re-export byte-identical, lock-step of later ops; distinct_nontrivial = distinct "
+              "(canonical dump after an op, op kind) pairs")
+    return c
+
+
+CHECKS = {"C05": c05, "C12": c12, "C01": c01, "C02": c02, "C03": c03, "C04": c04, "C08": c08, "C10": c10}
 
 
 # ------------------------------------------------------------------------------------------------ C17 (scheduler machine)
@@ -169,6 +187,8 @@ def c17(tier):
         with open(path, "w") as f:
             json.dump(ev, f, indent=1, sort_keys=False)
             f.write("\n")
+        if cnt.get("shadow_overflow", 0):
+            c.log("WARNING: the race detector's shadow overflowed in some runs (%d accesses not recorded)" % cnt["shadow_overflow"])
         if runs == 0:
             c.log("WARNING: no sensitivity self-test run in this batch (too few runs)")
         elif found == 0:
